@@ -749,6 +749,8 @@ CO_ERR COSdoInitUploadBlock(CO_SDO *srv)
     srv->Blk.LastValid = 0xFF;
     srv->Blk.Len       = srv->Blk.Size;
     srv->Blk.SegOk     = 0;
+    srv->Buf.Cur       = srv->Buf.Start;
+    srv->Buf.Num       = 0;
 
     if (size <= 4) {
         /* basic type entry: only restart the position of small strings and domains */
@@ -778,38 +780,28 @@ CO_ERR COSdoUploadBlock(CO_SDO *srv)
     uint8_t  len;
     uint8_t  i;
 
-    srv->Buf.Cur = srv->Buf.Start;
-    srv->Buf.Num = 0u;
-    num          = srv->Blk.SegNum * 7u;
-
-    if (srv->Blk.State == BLK_REPEAT) {
-        /* calculate number of bytes we need to repeat */
-        byteOk        = srv->Blk.SegOk * 7u;
-        num           = srv->Blk.SegCnt * 7u;
-        num          -= byteOk;
-        srv->Buf.Num  = num;
-        srv->Blk.Len += num;
-        if (srv->Blk.LastValid < 7) {
-            srv->Blk.Len -= (7u - srv->Blk.LastValid);
-        }
-        if (srv->Blk.SegOk > 0) {
-            /* remove successful transfered bytes at the front */
-            srv->Buf.Cur  = srv->Buf.Start;
-            txBuf         = srv->Buf.Start + byteOk;
-            txNum         = num;
-            while(txNum > 0) {
-                *srv->Buf.Cur = *txBuf;
-                srv->Buf.Cur++;
-                txBuf++;
-                txNum--;
-            }
-        } else {
-            /* repeat whole buffer (no remaining bytes needed) */
-            num = 0u;
-        }
+    /* remove the acknowledged bytes at the front of the buffer and
+     * keep the bytes which are not acknowledged (they are sent again) */
+    byteOk = srv->Blk.SegOk * 7u;
+    if (byteOk > srv->Buf.Num) {
+        byteOk = srv->Buf.Num;
     }
+    srv->Buf.Cur  = srv->Buf.Start;
+    txBuf         = srv->Buf.Start + byteOk;
+    txNum         = srv->Buf.Num - byteOk;
+    srv->Buf.Num  = txNum;
+    while (txNum > 0) {
+        *srv->Buf.Cur = *txBuf;
+        srv->Buf.Cur++;
+        txBuf++;
+        txNum--;
+    }
+    srv->Blk.SegOk = 0;
 
-    if (num > 0u) {
+    /* fill the buffer up to the size of the next block */
+    num = srv->Blk.SegNum * 7u;
+    if ((num > srv->Buf.Num) && (srv->Blk.Size > 0u)) {
+        num -= srv->Buf.Num;
         if (srv->Blk.Size > num) {
             /* fill remaining buffer with data from object entry */
             err = COObjRdBufCont(srv->Obj, srv->Node, srv->Buf.Cur, num);
@@ -817,19 +809,23 @@ CO_ERR COSdoUploadBlock(CO_SDO *srv)
                 srv->Node->Error = CO_ERR_SDO_READ;
             }
             srv->Blk.Size -= num;
+            srv->Buf.Num  += num;
         } else {
             /* read remaining data from object entry in buffer */
             if (srv->Blk.Size <= 4) {
                 err = COObjRdBufCont(srv->Obj, srv->Node, srv->Buf.Cur, srv->Blk.Size);
             } else {
                 err = COObjRdBufCont(srv->Obj, srv->Node, srv->Buf.Cur, num);
-            } 
+            }
             if (err != CO_ERR_NONE) {
                 srv->Node->Error = CO_ERR_SDO_READ;
             }
+            srv->Buf.Num += srv->Blk.Size;
             srv->Blk.Size = 0;
         }
     }
+    /* bytes which are not acknowledged up to now */
+    srv->Blk.Len = srv->Buf.Num + srv->Blk.Size;
 
     /* set DLC for block transfers */
     CO_SET_DLC(srv->Frm, 8u);
@@ -863,7 +859,6 @@ CO_ERR COSdoUploadBlock(CO_SDO *srv)
         for (i = 0; i < len; i++) {
             CO_SET_BYTE(srv->Frm, *(srv->Buf.Cur), 1+i);
             srv->Buf.Cur++;
-            srv->Buf.Num--;
         }
         for (i = (uint8_t)len; i < 7; i++) {
             CO_SET_BYTE(srv->Frm, 0, 1 + i);
@@ -886,11 +881,7 @@ CO_ERR COSdoAckUploadBlock(CO_SDO *srv)
         COSdoAbort(srv, CO_SDO_ERR_SEQ_NUM);
         COSdoAbortReq(srv);
         return (CO_ERR_SDO_ABORT);
-    } else if (seq < srv->Blk.SegCnt) {
-        srv->Blk.State = BLK_REPEAT;
-        srv->Blk.SegOk = seq;
-        result         = COSdoUploadBlock(srv);
-    } else if (srv->Blk.Len == 0) {
+    } else if ((seq == srv->Blk.SegCnt) && (srv->Blk.Len == 0)) {
         if (srv->Blk.LastValid <= 7) {
             val = (uint8_t)srv->Blk.LastValid;
             cmd = (uint8_t)0xC0 |
@@ -914,7 +905,11 @@ CO_ERR COSdoAckUploadBlock(CO_SDO *srv)
                 srv->Blk.SegNum = CO_SDO_BUF_SEG;
             }
         }
-        result = COSdoUploadBlock(srv);
+        if (seq < srv->Blk.SegCnt) {
+            srv->Blk.State = BLK_REPEAT;
+        }
+        srv->Blk.SegOk = seq;
+        result         = COSdoUploadBlock(srv);
     }
     return (result);
 }
